@@ -1,6 +1,7 @@
 """Rules about code hashing, hash rules, version computation and the dependency closure
 (shared by C01, C03, C13, C14)."""
 import ast
+import re
 import types
 
 from .. import astutil as A
@@ -43,6 +44,18 @@ LOCATION_ATTRS = {"co_filename", "co_firstlineno", "co_lnotab", "co_linetable", 
 
 
 # --------------------------------------------------------------------------------- helpers
+def _fa_live(ck, qual):
+    """FA of a function; when the CFG with explicit exception edges leaves statements of it unreachable (`try: return table[key]` /
+    `except KeyError: pass` in front of the body: a bare subscript is not a raising statement there), the CFG on which subscripts and
+    attribute reads may raise is used instead."""
+    fa = FA(ck, qual)
+    if fa.exc_mode != "all" and any(not fa.nodes(st) for st in fa.stmts((ast.Assign, ast.Return, ast.Expr, ast.AugAssign))):
+        alt = FA(ck, qual, exc_mode="all")
+        if sum(1 for st in alt.stmts() if alt.nodes(st)) > sum(1 for st in fa.stmts() if fa.nodes(st)):
+            return alt
+    return fa
+
+
 def _flow(fa, expr, at=None, _seen=None, _out=None):
     """Every AST node whose value can reach `expr` by evaluation and copying: the sub-expressions of
     `expr` and, for each local name read in it, the sub-expressions of the values assigned by the
@@ -488,6 +501,25 @@ def _split_atoms(t, positive):
 
 
 def _collection_spec(fa, expr, at, depth=4):
+    """_collection_spec0, with an iterable `filter(<predicate>, <collection>)` read as the collection plus one more filter atom."""
+    spec = _collection_spec0(fa, expr, at, depth)
+    for _i in range(3):
+        if spec is None or spec.get("iter_at") is None:
+            return spec
+        try:
+            it = fa.expand(spec["iter"], spec["iter_at"])
+        except Exception:  # noqa
+            return spec
+        if not (isinstance(it, ast.Call) and isinstance(it.func, ast.Name) and it.func.id == "filter" and len(it.args) == 2 and not it.keywords):
+            return spec
+        pred, coll = it.args
+        var = ast.Name(id=spec["var"], ctx=ast.Load())
+        atom = var if A.is_none(pred) else ast.Call(func=pred, args=[var], keywords=[])
+        spec = dict(spec, iter=coll, atoms=list(spec["atoms"]) + [(ast.fix_missing_locations(ast.copy_location(atom, it)), True)])
+    return spec
+
+
+def _collection_spec0(fa, expr, at, depth=4):
     """What collection an expression builds, whatever its spelling: a comprehension / generator (possibly wrapped in
     set() / list() / tuple() / frozenset()), a local assigned one, or a local initialised empty and filled by
     `.add` / `.append` in ONE loop whose body only filters (`if c: continue` guards, nested ifs).  Returns a dict
@@ -496,7 +528,7 @@ def _collection_spec(fa, expr, at, depth=4):
     if depth <= 0 or expr is None:
         return None
     if isinstance(expr, ast.Call) and isinstance(expr.func, ast.Name) and expr.func.id in ("set", "list", "tuple", "frozenset") and len(expr.args) == 1 and not expr.keywords:
-        return _collection_spec(fa, expr.args[0], at, depth - 1)
+        return _collection_spec0(fa, expr.args[0], at, depth - 1)
     if isinstance(expr, (ast.ListComp, ast.SetComp, ast.GeneratorExp)):
         if len(expr.generators) != 1 or not isinstance(expr.generators[0].target, ast.Name):
             return None
@@ -511,7 +543,7 @@ def _collection_spec(fa, expr, at, depth=4):
             return None
         d = ds[0]
         if A.norm(d.value) not in _EMPTY_INIT:
-            return _collection_spec(fa, d.value, d.node, depth - 1)
+            return _collection_spec0(fa, d.value, d.node, depth - 1)
         name = expr.id
         muts = [c for c in fa.calls() if isinstance(A.call_recv(c), ast.Name) and A.call_recv(c).id == name]
         adds = [c for c in muts if A.call_attr(c) in ("add", "append") and len(c.args) == 1]
@@ -890,31 +922,116 @@ def check_hash_input_coverage(ck, R):
     unit = _CodeHasher(ck)
     outer, h, obj = unit.outer, unit.dig, unit.obj
     # what reaches the digest: everything the arguments of `<hasher>.update(...)` / `hashlib.sha256(...)` are computed from,
-    # followed through temporaries, through what is appended to / stored in a local in place, and through loops
-    ups = [c for c in h.calls("update") if isinstance(A.call_recv(c), ast.Name) and c.args and h.nodes(c)]
-    sinks = [(a_, h.nodes(c)[0]) for c in ups + [c for c in h.calls() if A.call_dotted(c) in ("hashlib.sha256", "sha256") and h.nodes(c)] for a_ in c.args]
-    ck.need(bool(sinks), "%s: no digest is fed (<hasher>.update(...) / hashlib.sha256(...))" % h.fi.name)
-    fed_nodes = _backward_slice(h, sinks, control_dependence=False)
+    # followed through temporaries, through what is appended to / stored in a local in place, through loops - and ACROSS the
+    # functions of the unit: a parameter is followed to what the calls bind to it (`update(chunk) for chunk in chunks` makes
+    # every argument of that helper an input of the digest), a call to what the callee returns (the attribute list may be
+    # built by one function and digested by another)
+    fas = {}
+
+    def fa_of(fi_):
+        if fi_.qual not in fas:
+            fas[fi_.qual] = h if fi_ is h.fi else (outer if fi_ is outer.fi else FA(ck, fi_))
+        return fas[fi_.qual]
+
+    unit_fis = [outer.fi] + [f_ for f_ in unit.funcs.values()]
+
+    def callee_of(fx, call):
+        if not isinstance(call.func, ast.Name):
+            return None
+        cur = fx.fi
+        while cur is not None:
+            if call.func.id in cur.nested:
+                return cur.nested[call.func.id]
+            cur = cur.parent
+        f_ = unit.funcs.get(call.func.id)
+        return f_ if f_ is not None and f_.parent is None else None
+
+    def bound_args(call, fi_, pname):
+        """the expressions a call binds to parameter `pname` of `fi_` (several for *args)"""
+        a_ = fi_.node.args
+        pos = [x.arg for x in a_.posonlyargs + a_.args]
+        if a_.vararg is not None and a_.vararg.arg == pname:
+            return [x.value if isinstance(x, ast.Starred) else x for x in call.args[len(pos):]]
+        if a_.kwarg is not None and a_.kwarg.arg == pname:
+            return [k.value for k in call.keywords if k.arg is None or k.arg not in pos + [x.arg for x in a_.kwonlyargs]]
+        v_ = A.arg_or_kw(call, pos.index(pname), pname) if pname in pos else A.kwarg(call, pname)
+        return [v_] if v_ is not None else []
+
+    def digest_sinks(fis):
+        out_ = []
+        for fi_ in fis:
+            fx = fa_of(fi_)
+            for c in [c for c in fx.calls("update") if isinstance(A.call_recv(c), ast.Name) and c.args and fx.nodes(c)] + \
+                     [c for c in fx.calls() if A.call_dotted(c) in ("hashlib.sha256", "sha256") and fx.nodes(c)]:
+                for a_ in c.args:
+                    out_.append((fx, a_, fx.nodes(c)[0]))
+        return out_
+
+    def unit_slice(todo):
+      fed_nodes, owner = {}, {}
+      done_seeds, done_params, done_calls = set(), set(), set()
+      while todo:
+          (fx, e_, at_) = todo.pop()
+          if (fx.qual, id(e_), at_) in done_seeds:
+              continue
+          done_seeds.add((fx.qual, id(e_), at_))
+          for (n, a_) in _slice_at(fx, [(e_, at_)], control_dependence=False).values():
+              if id(n) not in fed_nodes:
+                  fed_nodes[id(n)] = n
+                  owner[id(n)] = fx
+              if isinstance(n, ast.Name) and isinstance(n.ctx, ast.Load) and a_ is not None and n.id in fx.fi.params \
+                      and any(d.kind == "param" for d in fx.df.reaching(a_, n.id)) and (fx.qual, n.id) not in done_params and fx.fi is not outer.fi:
+                  done_params.add((fx.qual, n.id))
+                  for cfi in unit_fis:
+                      cx = fa_of(cfi)
+                      for c in cx.calls(fx.fi.name):
+                          if callee_of(cx, c) is fx.fi and cx.nodes(c):
+                              for v_ in bound_args(c, fx.fi, n.id):
+                                  todo.append((cx, v_, cx.nodes(c)[0]))
+              if isinstance(n, ast.Call) and (fx.qual, id(n)) not in done_calls:
+                  done_calls.add((fx.qual, id(n)))
+                  cf = callee_of(fx, n)
+                  if cf is not None:
+                      gx = fa_of(cf)
+                      for r in gx.returns():
+                          if r.value is not None and gx.nodes(r):
+                              todo.append((gx, r.value, gx.nodes(r)[0]))
+      return fed_nodes, owner
+
+    seeds0 = digest_sinks([f_ for f_ in unit_fis if f_ is not outer.fi])
+    ck.need(bool(seeds0), "%s: no digest is fed (<hasher>.update(...) / hashlib.sha256(...)) in the code hasher or the functions it is split into" % h.fi.name)
+    fed_nodes, owner = unit_slice(seeds0)
     consumed = {}
     narrowed = {}
     NARROWING = {"len", "bool", "hash", "set", "frozenset", "min", "max", "any", "all", "sum", "id", "type"}
 
     def node_of(n):
-        st = h.stmt_of(n)
-        ns = h.nodes(st) if st is not None else []
+        fx = owner.get(id(n), h)
+        st = fx.stmt_of(n) if fx.pm.get(n) is not None else None
+        ns = fx.nodes(st) if st is not None else []
         return ns[0] if ns else None
+
+    def code_param(n):
+        """the name that stands for the code object in the function node `n` belongs to (the digester, or a function that hands its
+        parameter on to it), else None"""
+        fx = owner.get(id(n))
+        return unit.entries.get(fx.fi.name) if fx is not None and unit.funcs.get(fx.fi.name) is fx.fi else None
 
     for n in fed_nodes.values():
         attrs = []
-        if isinstance(n, ast.Attribute) and isinstance(n.value, ast.Name) and n.value.id == obj and n.attr.startswith("co_"):
+        fx = owner[id(n)]
+        cp = code_param(n)
+        if cp is None:
+            continue
+        if isinstance(n, ast.Attribute) and isinstance(n.value, ast.Name) and n.value.id == cp and n.attr.startswith("co_"):
             attrs = [n.attr]
-        elif isinstance(n, ast.Call) and A.call_attr(n) == "getattr" and isinstance(n.func, ast.Name) and len(n.args) >= 2 and A.norm(n.args[0]) == obj:
+        elif isinstance(n, ast.Call) and A.call_attr(n) == "getattr" and isinstance(n.func, ast.Name) and len(n.args) >= 2 and A.norm(n.args[0]) == cp:
             # the attribute name: a literal, or a variable ranging over literals (table-driven)
-            nm_alts = _alternatives(h, n.args[1], node_of(n)) if node_of(n) is not None else [(n.args[1], None)]
+            nm_alts = _alternatives(fx, n.args[1], node_of(n)) if node_of(n) is not None else [(n.args[1], None)]
             attrs = [A.const_str(e) for (e, _a) in nm_alts if A.const_str(e)] if all(A.const_str(e) for (e, _a) in nm_alts) else []
         if not attrs:
             continue
-        par = h.pm.get(n)
+        par = fx.pm.get(n)
         if (isinstance(par, ast.Subscript) and par.value is n) or \
                 (isinstance(par, ast.Call) and isinstance(par.func, ast.Name) and par.func.id in NARROWING and n in par.args):
             # only a part / a summary of the attribute is hashed
@@ -935,7 +1052,8 @@ def check_hash_input_coverage(ck, R):
     # co_consts recursion: some iteration over <obj>.co_consts that maps EVERY element through the hasher itself (the
     # digester or a dispatcher in front of it; directly, or through a local lambda / def that does nothing but call the
     # hasher on its argument) reaches the digest - a comprehension, map(), or a list filled by one loop
-    def is_hasher_call(call, var, depth=0):
+    def is_hasher_call(call, var, depth=0, hx=None):
+        h = hx if hx is not None else unit.dig
         if not (isinstance(call, ast.Call) and call.args and isinstance(call.args[0], ast.Name) and call.args[0].id == var):
             return False
         f = call.func
@@ -946,16 +1064,16 @@ def check_hash_input_coverage(ck, R):
             for st in h.stmts(ast.Assign):
                 if any(isinstance(t, ast.Name) and t.id == f.id for t in st.targets) and isinstance(st.value, ast.Lambda) \
                         and st.value.args.args and isinstance(st.value.body, ast.Call):
-                    if is_hasher_call(st.value.body, st.value.args.args[0].arg, depth + 1):
+                    if is_hasher_call(st.value.body, st.value.args.args[0].arg, depth + 1, hx):
                         return True
             sub = h.fi.nested.get(f.id)
             if sub is not None and sub.params:
                 rets = [x for x in A.walk_body(sub.node) if isinstance(x, ast.Return)]
-                if len(rets) == 1 and len(A.sig_stmts(sub.node.body)) == 1 and is_hasher_call(rets[0].value, sub.params[0], depth + 1):
+                if len(rets) == 1 and len(A.sig_stmts(sub.node.body)) == 1 and is_hasher_call(rets[0].value, sub.params[0], depth + 1, hx):
                     return True
         return False
 
-    def is_hasher_ref(f):
+    def is_hasher_ref(f, hx=None):
         """a one-argument callable that applies the hasher to its argument (for map())"""
         if isinstance(f, ast.Name) and f.id in unit.entries:
             fi_ = unit.funcs[f.id]
@@ -963,26 +1081,29 @@ def check_hash_input_coverage(ck, R):
             required = [x.arg for x in a_.posonlyargs + a_.args][: len(a_.posonlyargs + a_.args) - len(a_.defaults)]
             return required == [unit.entries[f.id]]
         if isinstance(f, ast.Lambda) and len(f.args.args) == 1 and isinstance(f.body, ast.Call):
-            return is_hasher_call(f.body, f.args.args[0].arg)
+            return is_hasher_call(f.body, f.args.args[0].arg, hx=hx)
         return False
 
     rec = False
     for n in fed_nodes.values():
         spec = None
-        if isinstance(n, (ast.ListComp, ast.GeneratorExp)) or (isinstance(n, ast.Name) and isinstance(n.ctx, ast.Load) and h.df.is_local(n.id) and n.id not in h.fi.params):
+        hx, cp = owner[id(n)], code_param(n)
+        if cp is None:
+            continue
+        if isinstance(n, (ast.ListComp, ast.GeneratorExp)) or (isinstance(n, ast.Name) and isinstance(n.ctx, ast.Load) and hx.df.is_local(n.id) and n.id not in hx.fi.params):
             at_ = node_of(n)
-            spec = _collection_spec(h, n, at_) if at_ is not None else None
-        if spec is not None and not spec["atoms"] and h.xnorm(spec["iter"], spec["iter_at"]) == obj + ".co_consts" and is_hasher_call(spec["elt"], spec["var"]):
+            spec = _collection_spec(hx, n, at_) if at_ is not None else None
+        if spec is not None and not spec["atoms"] and hx.xnorm(spec["iter"], spec["iter_at"]) == cp + ".co_consts" and is_hasher_call(spec["elt"], spec["var"], hx=hx):
             rec = True
         if isinstance(n, ast.Call) and isinstance(n.func, ast.Name) and n.func.id == "map" and len(n.args) == 2 and node_of(n) is not None \
-                and h.xnorm(n.args[1], node_of(n)) == obj + ".co_consts" and is_hasher_ref(n.args[0]):
+                and hx.xnorm(n.args[1], node_of(n)) == cp + ".co_consts" and is_hasher_ref(n.args[0], hx=hx):
             rec = True
     ck.ob(R, h.key(None, "consts-recursive"), rec, "constants are hashed recursively (nested functions, lambdas, comprehensions)" if rec else
           "co_consts is not hashed through the hasher itself: edits inside nested code objects are invisible", h.where())
     # salt / environment
     def fed(param):
         """something that stands for fn_code_hash's parameter `param` reaches the digest"""
-        return any(isinstance(x, ast.Name) and isinstance(x.ctx, ast.Load) and unit.stands_for(h.fi, x.id) == param for x in fed_nodes.values())
+        return any(isinstance(x, ast.Name) and isinstance(x.ctx, ast.Load) and unit.stands_for(owner[id(x)].fi, x.id) == param for x in fed_nodes.values())
 
     ok_env = fed("environment") and fed("salt")
     ck.ob(R, h.key(None, "salt-and-environment"), ok_env, "salt and environment feed the digest" if ok_env else
@@ -998,11 +1119,20 @@ def check_hash_input_coverage(ck, R):
         for attr in FUNC_RELEVANT:
             if isinstance(n, ast.Call) and _helper_reads_attr(outer, n, attr) is not None:
                 got.add(attr)
+    fed_all = ret_all = None
     for attr, why in FUNC_RELEVANT.items():
         ok = attr in got
         if ok:
             # it is fed to a digest whose value is returned
             ok = _digest_fed_and_returned(outer, lambda arg, at, attr=attr: _reads_attr(outer, arg, attr, at))
+            if not ok:
+                # ... the digest may be fed by a helper of the unit (`result = _mix(result, (defaults, kwdefaults))`): the read is among
+                # what reaches some digest of the unit, and among what the returned value is made from
+                if fed_all is None:
+                    fed_all = unit_slice(digest_sinks(unit_fis))[0]
+                    ret_all = unit_slice([(outer, r.value, outer.nodes(r)[0]) for r in outer.returns() if r.value is not None and outer.nodes(r)])[0]
+                ok = any(i_ in ret_all and outer.pm.get(n_) is not None and (_attr_read_subject(n_, attr) is not None or _helper_reads_attr(outer, n_, attr) is not None)
+                         for (i_, n_) in fed_all.items())
         ck.ob(R, outer.key(None, attr), ok, "%s reaches the digest" % attr if ok else
               "%s (%s) is not part of the code hash: editing a default value keeps the version, and a stale result is served" % (attr, why), outer.where())
     # every return of a code-based hash passes the reads of the defaults (no early exit, e.g.
@@ -1023,15 +1153,28 @@ def check_hash_input_coverage(ck, R):
     by_attr = {}
     for (a, st) in def_reads:
         by_attr.setdefault(a, []).append(st)
+    _tables, _designator = _shared_tables(ck.repo.module(CH))
     for r in outer.returns():
         if r.value is None:
             continue
         v = r.value
         if isinstance(v, ast.Call) and A.call_attr(v) in ("repr", "_stable_repr", "str") and [A.norm(a) for a in v.args] == ["fn"]:
             continue  # the documented fallback for callables without code
+        if outer.nodes(r) and _table_reads(outer, v, outer.nodes(r)[0], _designator, _tables):
+            # a remembered value: whether the key it is remembered under determines the defaults and the captured values as well
+            # is decided where the table is filled (check_no_remembered_hash_inputs, C01.R13 / C13.R7)
+            continue
+        # (single-return style: the documented fallback may be assigned to the returned variable in the branch for callables
+        # without code - a path through that assignment returns the fallback, not a code hash)
+        fallback = []
+        if isinstance(v, ast.Name):
+            for s_ in outer.stmts(ast.Assign):
+                if any(isinstance(t_, ast.Name) and t_.id == v.id for t_ in s_.targets) and isinstance(s_.value, ast.Call) \
+                        and A.call_attr(s_.value) in ("repr", "_stable_repr", "str") and [A.norm(a) for a in s_.value.args] == ["fn"]:
+                    fallback += outer.nodes(s_)
         for attr in FUNC_RELEVANT:
             nodes = outer.nodes_all(by_attr.get(attr, []))
-            ok = bool(nodes) and all(outer.cfg.must_pass(nodes, i) for i in outer.nodes(r))
+            ok = bool(nodes) and all(outer.cfg.must_pass(set(nodes) | set(fallback), i) for i in outer.nodes(r))
             ck.ob(R, outer.key(r, "return-after-" + attr), ok, "this return is reached only after %s was read" % attr if ok else
                   "fn_code_hash can return a code hash without reading %s on that path (early return / cache keyed by the code object): "
                   "a definition re-executed with only a default changed keeps its version" % attr, outer.where(r))
@@ -1476,6 +1619,362 @@ def check_recompute_from_scratch(ck, R):
           "(per generation, per rule key ...) is stale as soon as a tracked variable is re-bound or a helper redefined - nothing advances the generation "
           "until a scan notices - so a function that recomputes without having scanned adopts the old hash, and its freshly collected rules then "
           "report 'unchanged' for ever" % stale[0][1] if stale else "", fa.where(stale[0][0] if stale and hasattr(stale[0][0], "lineno") else feed["stmt"]))
+    check_no_remembered_hash_inputs(ck, R)
+
+
+_TABLE_WRITERS = {"setdefault", "update", "add", "append", "extend", "insert", "appendleft", "__setitem__"}
+_TABLE_READERS = {"get", "pop", "setdefault", "__getitem__"}
+
+
+def _slice_at(fa, seeds, control_dependence=True, stmts=()):
+    """_backward_slice that also remembers WHERE each node is evaluated: {id(node): (node, CFG node or None)}.  The bodies of
+    nested functions are not entered; what a called nested function reads from this function is represented by a read of that
+    variable at the place where the nested function is defined."""
+    out, seen_defs, seen_ctl, seen_fn = {}, set(), set(), set()
+    work = list(seeds)
+    mutations = {}
+    for st in fa.stmts():
+        if isinstance(st, (ast.If, ast.While, ast.For, ast.AsyncFor, ast.Try, ast.With, ast.AsyncWith)) or not fa.nodes(st):
+            continue
+        for x in A.walk_local(st):
+            if isinstance(x, ast.Call) and isinstance(x.func, ast.Attribute) and isinstance(x.func.value, ast.Name):
+                mutations.setdefault(x.func.value.id, []).append((st, list(x.args) + [k.value for k in x.keywords]))
+            if isinstance(x, (ast.Subscript, ast.Attribute)) and isinstance(x.ctx, ast.Store) and getattr(st, "value", None) is not None:
+                r_ = x
+                while isinstance(r_, (ast.Subscript, ast.Attribute)):
+                    r_ = r_.value
+                if isinstance(r_, ast.Name) and r_.id != "self":
+                    mutations.setdefault(r_.id, []).append((st, [st.value] + ([x.slice] if isinstance(x, ast.Subscript) else [])))
+
+    def control(st):
+        if not control_dependence:
+            return
+        cur = st
+        while cur is not None and cur is not fa.node:
+            par = fa.pm.get(cur)
+            if isinstance(par, (ast.If, ast.While)) and id(par) not in seen_ctl and cur is not par.test:
+                seen_ctl.add(id(par))
+                for i in fa.nodes(par.test)[:1]:
+                    work.append((par.test, i))
+            elif isinstance(par, (ast.For, ast.AsyncFor)) and id(par) not in seen_ctl and cur is not par.iter:
+                seen_ctl.add(id(par))
+                for i in fa.nodes(par)[:1]:
+                    work.append((par.iter, i))
+            cur = par
+
+    for (e0, at0) in seeds:
+        st0 = fa.stmt_of(e0) if fa.pm.get(e0) is not None else None
+        if st0 is not None:
+            control(st0)
+    for st0 in stmts:
+        control(st0)
+    while work:
+        (e, at) = work.pop()
+        if e is None:
+            continue
+        for n in A.walk_local(e):
+            out.setdefault(id(n), (n, at))
+            if isinstance(n, ast.Name) and isinstance(n.ctx, ast.Load) and at is not None:
+                for d in fa.df.reaching(at, n.id):
+                    if (d.node, d.name) in seen_defs:
+                        continue
+                    seen_defs.add((d.node, d.name))
+                    if d.value is not None:
+                        work.append((d.value, d.node))
+                    if d.stmt is not None:
+                        control(d.stmt)
+                for (st, exprs) in mutations.get(n.id, []) if fa.df.is_local(n.id) else []:
+                    if ("mut", id(st), n.id) in seen_defs:
+                        continue
+                    seen_defs.add(("mut", id(st), n.id))
+                    for x in exprs:
+                        work.append((x, fa.nodes(st)[0]))
+                    control(st)
+            if isinstance(n, ast.Call) and isinstance(n.func, ast.Name) and n.func.id in fa.fi.nested and n.func.id not in seen_fn:
+                seen_fn.add(n.func.id)
+                sub = fa.fi.nested[n.func.id].node
+                a_ = sub.args
+                own = {x.arg for x in a_.posonlyargs + a_.args + a_.kwonlyargs} | ({a_.vararg.arg} if a_.vararg else set()) | ({a_.kwarg.arg} if a_.kwarg else set())
+                own |= {x.id for b_ in sub.body for x in ast.walk(b_) if isinstance(x, ast.Name) and isinstance(x.ctx, ast.Store)}
+                names = sorted({x.id for b_ in sub.body for x in ast.walk(b_) if isinstance(x, ast.Name) and isinstance(x.ctx, ast.Load) and x.id not in own and fa.df.is_local(x.id)})
+                for nm in names:
+                    for i in fa.nodes(sub)[:1]:
+                        work.append((ast.copy_location(ast.Name(id=nm, ctx=ast.Load()), sub), i))
+                control(sub)
+    return out
+
+
+def _shared_tables(mod):
+    """Module-level names and class-level attributes of `mod` that functions of the module write into (subscript store, adding
+    method, `global` re-binding): {designator text ('T' / 'Class.T'): [(FuncInfo, statement or call, key, value)]}.  Tables that are only filled
+    while the module is imported (strategy lists) are constants as far as a running program is concerned."""
+    class_names = set(mod.classes)
+    out = {}
+
+    def designator(fi, e):
+        if isinstance(e, ast.Name) and e.id in mod.assigns:
+            cur = fi
+            while cur is not None:
+                a_ = cur.node.args
+                if e.id in cur.params or any(isinstance(x, ast.Name) and isinstance(x.ctx, ast.Store) and x.id == e.id for x in A.walk_body(cur.node)) \
+                        and not any(isinstance(x, ast.Global) and e.id in x.names for x in A.walk_body(cur.node)):
+                    return None
+                cur = cur.parent
+            return e.id
+        if isinstance(e, ast.Attribute) and isinstance(e.value, ast.Name):
+            if e.value.id in class_names:
+                return "%s.%s" % (e.value.id, e.attr)
+            if e.value.id == "cls" and fi.cls is not None:
+                return "%s.%s" % (fi.cls.name, e.attr)
+        return None
+
+    def read_key(fi, e):
+        """`T[K]` / `T.get(K ...)` / `T.setdefault(K, ...)` on a shared table -> (table, K)"""
+        if isinstance(e, ast.Subscript) and designator(fi, e.value):
+            return (designator(fi, e.value), e.slice)
+        if isinstance(e, ast.Call) and A.call_attr(e) in _TABLE_READERS and A.call_recv(e) is not None and e.args and designator(fi, A.call_recv(e)):
+            return (designator(fi, A.call_recv(e)), e.args[0])
+        return None
+
+    def parse(node, outer_key=None):
+        """(key, value) of a store statement / writer call; (None, None) when it is not of a form that is understood"""
+        k = v = None
+        if isinstance(node, (ast.Assign, ast.AnnAssign, ast.AugAssign)):
+            tg = next((t for t in (node.targets if isinstance(node, ast.Assign) else [node.target]) if isinstance(t, ast.Subscript)), None)
+            if tg is not None and node.value is not None:
+                k, v = tg.slice, node.value
+        elif isinstance(node, ast.Call) and A.call_attr(node) in ("setdefault", "__setitem__") and len(node.args) == 2:
+            k, v = node.args
+        if k is not None and outer_key is not None:
+            k = ast.copy_location(ast.Tuple(elts=[outer_key, k], ctx=ast.Load()), k)
+        return k, v
+
+    for fi in mod.all_funcs():
+        # sub-tables: a local that holds an entry of a shared table (`per_code = T.setdefault(code, {})`) - what is stored through
+        # it is stored in the table, under the pair of keys
+        entry = {}
+        for st in A.walk_body(fi.node):
+            if isinstance(st, ast.Assign) and len(st.targets) == 1 and isinstance(st.targets[0], ast.Name) and read_key(fi, st.value):
+                entry[st.targets[0].id] = read_key(fi, st.value)
+        for st in A.walk_body(fi.node):
+            if not isinstance(st, ast.stmt):
+                continue
+            if isinstance(st, (ast.Assign, ast.AugAssign, ast.AnnAssign)):
+                tgs = st.targets if isinstance(st, ast.Assign) else [st.target]
+                for t in tgs:
+                    if isinstance(t, ast.Subscript):
+                        d = designator(fi, t.value)
+                        if d:
+                            out.setdefault(d, []).append((fi, st) + parse(st))
+                        elif isinstance(t.value, ast.Name) and t.value.id in entry:
+                            out.setdefault(entry[t.value.id][0], []).append((fi, st) + parse(st, entry[t.value.id][1]))
+                    elif isinstance(t, ast.Name) and any(isinstance(x, ast.Global) and t.id in x.names for x in A.walk_body(fi.node)) and t.id in mod.assigns:
+                        out.setdefault(t.id, []).append((fi, st, None, None))
+            if isinstance(st, (ast.Expr, ast.Assign, ast.AnnAssign, ast.AugAssign, ast.Return)):
+                for c in A.walk_local(st):
+                    if isinstance(c, ast.Call) and A.call_attr(c) in _TABLE_WRITERS and A.call_recv(c) is not None:
+                        d = designator(fi, A.call_recv(c))
+                        if d:
+                            out.setdefault(d, []).append((fi, c) + parse(c))
+                        elif isinstance(A.call_recv(c), ast.Name) and A.call_recv(c).id in entry:
+                            out.setdefault(entry[A.call_recv(c).id][0], []).append((fi, c) + parse(c, entry[A.call_recv(c).id][1]))
+    return out, designator
+
+
+def _table_reads(fa, expr, at, designator, tables):
+    """Reads of a shared table that the value of `expr` is copied from: [(table, key expression or None, the read, CFG node)]"""
+    got = []
+    for (n, a_) in _slice_at(fa, [(expr, at)], control_dependence=False).values():
+        if isinstance(n, ast.Subscript) and isinstance(n.ctx, ast.Load):
+            d = designator(fa.fi, n.value)
+            if d in tables:
+                got.append((d, n.slice, n, a_))
+        elif isinstance(n, ast.Call) and A.call_recv(n) is not None and A.call_attr(n) in _TABLE_READERS:
+            d = designator(fa.fi, A.call_recv(n))
+            if d in tables:
+                got.append((d, n.args[0] if n.args else None, n, a_))
+    # a table handed on as a whole (`for v in T.values()`, `dict(T)`)
+    for (n, a_) in _slice_at(fa, [(expr, at)], control_dependence=False).values():
+        if isinstance(n, (ast.Name, ast.Attribute)) and isinstance(getattr(n, "ctx", None), ast.Load) and designator(fa.fi, n) in tables:
+            par = fa.pm.get(n)
+            if not ((isinstance(par, ast.Subscript) and par.value is n) or (isinstance(par, ast.Attribute) and par.value is n and isinstance(fa.pm.get(par), ast.Call)
+                                                                            and fa.pm.get(par).func is par and par.attr in _TABLE_READERS)):
+                got.append((designator(fa.fi, n), None, n, a_))
+    return got
+
+
+def _access(n):
+    """`X.a` / getattr(X, 'a'[, d]) / hasattr(X, 'a') with X a plain name -> (X, 'a'), else None"""
+    if isinstance(n, ast.Attribute) and isinstance(n.ctx, ast.Load) and isinstance(n.value, ast.Name):
+        return (n.value, n.attr)
+    if isinstance(n, ast.Call) and isinstance(n.func, ast.Name) and n.func.id in ("getattr", "hasattr") and len(n.args) >= 2 and isinstance(n.args[0], ast.Name) and A.const_str(n.args[1]):
+        return (n.args[0], A.const_str(n.args[1]))
+    return None
+
+
+def _uncovered_inputs(fa, value, key, at, anchor=None):
+    """What the value stored in a memo table depends on that the key it is stored under does not determine: reads of the function's
+    parameters (whole, or one attribute of them; followed through local copies) in the backward slice of `value` (data and control)
+    that are neither the very reads the key is computed from, nor reads of the same thing of the same variable, nor reads of an
+    object the key contains as a whole.  [(description, node)]"""
+    st_ = [x for x in [fa.stmt_of(anchor) if anchor is not None and not isinstance(anchor, ast.stmt) else anchor] if x is not None]
+    sv = _slice_at(fa, [(value, at)], control_dependence=True, stmts=st_)
+    sk = _slice_at(fa, [(key, at)], control_dependence=True, stmts=st_)
+    skd = _slice_at(fa, [(key, at)], control_dependence=False)
+    pm = fa.pm
+
+    def is_subject(nm):
+        par = pm.get(nm)
+        if isinstance(par, ast.Attribute) and par.value is nm:
+            return True
+        return isinstance(par, ast.Call) and isinstance(par.func, ast.Name) and par.func.id in ("getattr", "hasattr", "isinstance", "callable", "type", "id") and par.args and par.args[0] is nm
+
+    whole_in_key = [(n, a_) for (n, a_) in skd.values() if isinstance(n, ast.Name) and isinstance(n.ctx, ast.Load) and a_ is not None and (pm.get(n) is None or not is_subject(n))]
+    key_reads = [(n, a_) for (n, a_) in sk.values() if a_ is not None and (_access(n) is not None or isinstance(n, ast.Name))]
+
+    def same_var(name, a1, a2):
+        if not fa.df.is_local(name):
+            return True   # a variable of an enclosing function / a global: one binding as far as this function can tell
+        return a1 is not None and a2 is not None and fa.df.same_defs(name, a1, a2)
+
+    busy = set()
+
+    def name_covered(name, a_):
+        """the object held by `name` at `a_` is determined by the key: the key contains it as a whole, or it is a local copy / a part of covered things"""
+        if any(m.id == name and same_var(name, am, a_) for (m, am) in whole_in_key):
+            return True
+        if not fa.df.is_local(name) or a_ is None:
+            return False
+        ds = fa.df.reaching(a_, name)
+        if not ds or any(d.kind == "param" for d in ds):
+            return False
+        for d in ds:
+            if (d.node, d.name) in busy or d.value is None:
+                continue
+            busy.add((d.node, d.name))
+            try:
+                if not expr_covered(d.value, d.node):
+                    return False
+            finally:
+                busy.discard((d.node, d.name))
+        return True
+
+    def read_covered(n, a_):
+        if id(n) in sk:
+            return True
+        acc = _access(n)
+        if acc is not None:
+            subj, attr = acc
+            if any(_access(m) is not None and _access(m)[1] == attr and _access(m)[0].id == subj.id and same_var(subj.id, am, a_) for (m, am) in key_reads):
+                return True
+            return name_covered(subj.id, a_)
+        return name_covered(n.id, a_)
+
+    def expr_covered(e, a_):
+        done = set()
+        for x in A.walk_local(e):
+            acc = _access(x)
+            if acc is not None and (fa.df.is_local(acc[0].id)):
+                done.add(id(acc[0]))
+                if not read_covered(x, a_):
+                    return False
+        for x in A.walk_local(e):
+            if isinstance(x, ast.Name) and isinstance(x.ctx, ast.Load) and id(x) not in done and fa.df.is_local(x.id) and not read_covered(x, a_):
+                return False
+        return True
+
+    def param_like(name, a_):
+        """does `name` hold (on some path) what the caller handed in - a parameter of this function or a variable of an enclosing one?"""
+        if not fa.df.is_local(name):
+            cur = fa.fi.parent
+            while cur is not None:
+                if name in cur.params or any(isinstance(x, ast.Name) and isinstance(x.ctx, ast.Store) and x.id == name for x in A.walk_body(cur.node)):
+                    return True
+                cur = cur.parent
+            return False
+        return a_ is not None and any(d.kind == "param" for d in fa.df.reaching(a_, name))
+
+    bad = []
+    subjects = set()
+    # state of the object the method belongs to: `self.a.b` read for the value is determined by the key when the key contains
+    # `self`, `self.a` or `self.a.b` itself
+    key_chains = {A.dotted(m) for (m, _am) in skd.values() if isinstance(m, ast.Attribute) and A.dotted(m) and not (isinstance(pm.get(m), ast.Attribute) and pm.get(m).value is m)}
+    key_self = any(m.id == "self" for (m, _am) in whole_in_key)
+    for (n, a_) in sv.values():
+        if isinstance(n, ast.Attribute) and isinstance(n.ctx, ast.Load) and (A.dotted(n) or "").startswith("self.") and "self" in fa.fi.params:
+            par = pm.get(n)
+            if (isinstance(par, ast.Attribute) and par.value is n) or (isinstance(par, ast.Call) and par.func is n):
+                continue
+            chain = A.dotted(n)
+            parts = chain.split(".")
+            if id(n) in sk or key_self or any(".".join(parts[:k_]) in key_chains for k_ in range(2, len(parts) + 1)):
+                continue
+            bad.append(("`%s`" % chain, n))
+    for (n, a_) in sv.values():
+        acc = _access(n)
+        if acc is not None:
+            subjects.add(id(acc[0]))
+            root = acc[0].id
+            if root in ("self", "cls") or not (fa.df.is_local(root) or param_like(root, a_)):
+                continue
+            if not read_covered(n, a_):
+                bad.append(("`%s` of `%s`" % (acc[1], root), n))
+    for (n, a_) in sv.values():
+        if isinstance(n, ast.Name) and isinstance(n.ctx, ast.Load) and id(n) not in subjects and n.id not in ("self", "cls") and param_like(n.id, a_):
+            par = pm.get(n)
+            if par is not None and is_subject(n):
+                continue   # only its kind is looked at
+            if not read_covered(n, a_):
+                bad.append(("`%s`%s" % (n.id, (" (handed to `%s`)" % A.short(par.func, 30)) if isinstance(par, ast.Call) and n in par.args else ""), n))
+    return bad
+
+
+def check_no_remembered_hash_inputs(ck, R):
+    """Second half of "from scratch": the functions that turn the program into hashes and rule sets (the whole of code_hash.py)
+    answer from what they are GIVEN.  Where one of them returns a value remembered in a table shared between calls, the key the
+    value was stored under has to determine everything the value was computed from - otherwise another function (equal code,
+    other defaults / captured values; same name, re-defined) is answered with its predecessor's value, in this process only."""
+    mod = ck.repo.module(CH)
+    tables, designator = _shared_tables(mod)
+    n_ob = 0
+    for fi in sorted(mod.all_funcs(), key=lambda f: f.qual):
+        if not any(isinstance(x, (ast.Name, ast.Attribute)) and designator(fi, x) in tables for x in A.walk_body(fi.node)):
+            continue
+        # (memo tables are commonly read under `try: ... except KeyError`: decided on the CFG where a subscript may raise)
+        fa = FA(ck, fi, exc_mode="all")
+        reads = []
+        for r in fa.returns():
+            if r.value is not None and fa.nodes(r):
+                reads += _table_reads(fa, r.value, fa.nodes(r)[0], designator, tables)
+        for t in sorted({t for (t, _k, _n, _a) in reads}):
+            first = next(x for x in reads if x[0] == t)
+            stores = []
+            for (gfi, st, k_, v_) in tables[t]:
+                g = fa if gfi is fi else FA(ck, gfi, exc_mode="all")
+                if not g.nodes(st):
+                    continue
+                if k_ is None:
+                    raise AnalysisError("%s: `%s` writes the shared table `%s`, which %s answers from, in a way that is not understood (expected "
+                                        "`table[key] = value` / `table.setdefault(key, value)`)" % (gfi.qual, A.short(st, 60), t, fi.name))
+                stores.append((g, st, k_, v_))
+            n_ob += 1
+            if first[1] is None:
+                ck.ob(R, fa.key(None, "remembered:" + t), False, "%s hands on the shared table `%s` as a whole: values computed for other arguments (and for earlier "
+                      "editions of the program) come with it" % (fi.name, t), fa.where(first[2]))
+                continue
+            bad = []
+            for (g, st, k, v) in stores:
+                for (what, n) in _uncovered_inputs(g, v, k, g.nodes(st)[0], st):
+                    bad.append((g, st, k, what, n))
+            ok = not bad
+            ck.ob(R, fa.key(None, "remembered:" + t), ok,
+                  "what %s answers from `%s` is stored under a key that determines everything it was computed from" % (fi.name, t) if ok else
+                  "%s can answer with a value remembered in `%s`, and `%s` stores it under the key `%s`, which does not determine %s that the value is computed from: "
+                  "another function with an equal key (closures of one factory share their code object; a re-executed definition that only changes a default value) is "
+                  "answered with the hash of its predecessor - did_change fires and the version is recomputed, but to the old value, while a fresh process computes "
+                  "the new one" % (fi.name, t, bad[0][0].fi.name, A.short(bad[0][2], 50), ", ".join(dict.fromkeys(b[3] for b in bad[:4]))) if bad else "",
+                  fa.where(first[2]))
+    return n_ob
 
 
 # --------------------------------------------------------------------------------- C01.R4
@@ -1648,10 +2147,31 @@ def check_descent_complete(ck, R):
             ck.ob(R, fx.key(c, "args"), okc, "the same result set / root / scope are passed down" if okc else
                   "the descent does not pass down (result, root_fn, package_scope)", fx.where(c))
     ck.need(n_tests >= 2, "_visit_dependency: `if rule is not None` sites not found")
+    # the function that offers a symbol to the rule strategies, found by WHAT IT DOES (it calls try_resolve): the function nested in
+    # _visit_dependency, or a method of the class that _visit_dependency was split into (the blacklist is then one of its parameters)
     rs = None
     for fx in unit:
         rs = rs or fx.fi.nested.get("resolve_symbol")
-    ck.need(rs is not None, "_visit_dependency.resolve_symbol not found")
+    BL = "blacklist"
+    if rs is None:
+        def _calls_try_resolve(fi_):
+            return any(A.call_attr(c) == "try_resolve" for c in A.body_calls(fi_.node))
+        cands = [n_ for fx in unit for n_ in fx.fi.nested.values() if _calls_try_resolve(n_)] + [fx.fi for fx in unit[1:] if _calls_try_resolve(fx.fi)]
+        ck.need(len(cands) == 1, "_visit_dependency: expected one function (nested in it, or a method of HashRule it calls) that offers the symbol to the rule "
+                                 "strategies (calls try_resolve), found %d" % len(cands))
+        rs = cands[0]
+        if rs.parent is None:
+            # which parameter receives the blacklist: what the call sites in the unit bind the traversal's blacklist to
+            got = set()
+            for fx in unit:
+                for c in fx.calls(rs.name):
+                    ps = [p_ for p_ in rs.params if not (p_ in ("self", "cls") and not rs.is_static)]
+                    for i_, p_ in enumerate(ps):
+                        a_ = A.arg_or_kw(c, i_, p_)
+                        if a_ is not None and fx.nodes(c) and fx.xnorm(a_, fx.nodes(c)[0]) == "blacklist":
+                            got.add(p_)
+            ck.need(len(got) == 1, "%s: the parameter that receives the blacklist could not be determined" % rs.qual)
+            BL = next(iter(got))
     rsa = FA(ck, rs)
     # every decision resolve_symbol takes is either "is the object (identically) one of the blacklist" or
     # "did this strategy resolve it": each branch test is classified by what it compares, whatever the loop /
@@ -1662,7 +2182,7 @@ def check_descent_complete(ck, R):
 
     def over_blacklist(name, at):
         """Is `name` a loop variable ranging over the blacklist?"""
-        return any(d.kind == "for" and d.value is not None and rsa.xnorm(d.value, d.node) == "blacklist" for d in rsa.df.reaching(at, name))
+        return any(d.kind == "for" and d.value is not None and rsa.xnorm(d.value, d.node) == BL for d in rsa.df.reaching(at, name))
 
     def classify(t_, at):
         if isinstance(t_, ast.UnaryOp) and isinstance(t_.op, ast.Not):
@@ -1672,7 +2192,7 @@ def check_descent_complete(ck, R):
             return "<try_resolve result> is not None"
         if isinstance(t_, ast.Call) and A.norm(t_.func) == "any" and len(t_.args) == 1 and isinstance(t_.args[0], (ast.GeneratorExp, ast.ListComp)) \
                 and len(t_.args[0].generators) == 1 and isinstance(t_.args[0].generators[0].target, ast.Name) and not t_.args[0].generators[0].ifs \
-                and rsa.xnorm(t_.args[0].generators[0].iter, at) == "blacklist" and isinstance(t_.args[0].elt, ast.Compare) and len(t_.args[0].elt.ops) == 1 \
+                and rsa.xnorm(t_.args[0].generators[0].iter, at) == BL and isinstance(t_.args[0].elt, ast.Compare) and len(t_.args[0].elt.ops) == 1 \
                 and isinstance(t_.args[0].elt.ops[0], ast.Is) and {A.norm(t_.args[0].elt.left), A.norm(t_.args[0].elt.comparators[0])} - {t_.args[0].generators[0].target.id} \
                 <= params and len({A.norm(t_.args[0].elt.left), A.norm(t_.args[0].elt.comparators[0])}) == 2:
             return "<blacklist identity>"
@@ -1695,7 +2215,7 @@ def check_descent_complete(ck, R):
         elif at_ is None:
             # a literal made up on the path: judged by its text alone
             names = {x.id for x in ast.walk(e_) if isinstance(x, ast.Name)}
-            loops_bl = {x.ast.target.id for x in rsa.cfg.nodes if x.kind == "for" and isinstance(x.ast.target, ast.Name) and rsa.xnorm(x.ast.iter, x.id) == "blacklist"}
+            loops_bl = {x.ast.target.id for x in rsa.cfg.nodes if x.kind == "for" and isinstance(x.ast.target, ast.Name) and rsa.xnorm(x.ast.iter, x.id) == BL}
             if isinstance(e_, ast.Compare) and len(e_.ops) == 1 and isinstance(e_.ops[0], ast.Is) and A.is_none(e_.comparators[0]) \
                     and any(isinstance(x, ast.Call) and A.call_attr(x) == "try_resolve" for x in ast.walk(e_.left)):
                 tests.append("<try_resolve result> is not None")
@@ -1713,7 +2233,7 @@ def check_descent_complete(ck, R):
         for c_ in (A.walk_local(st_) if rsa.nodes(st_) and not isinstance(st_, (ast.If, ast.For, ast.While, ast.Try, ast.With)) else []):
             if isinstance(c_, (ast.GeneratorExp, ast.ListComp)) and len(c_.generators) == 1 and any(isinstance(t, ast.Call) and A.call_attr(t) == "try_resolve" for t in ast.walk(c_)):
                 scans.append((c_.generators[0].iter, rsa.nodes(st_)[0]))
-    others = [x for x in rsa.cfg.nodes if x.kind == "for" and x not in lp and rsa.xnorm(x.ast.iter, x.id) != "blacklist"]
+    others = [x for x in rsa.cfg.nodes if x.kind == "for" and x not in lp and rsa.xnorm(x.ast.iter, x.id) != BL]
     from_strategy = any(r_.value is not None and rsa.nodes(r_) and "call:try_resolve" in rsa.df.deps(r_.value, rsa.nodes(r_)[0]) for r_ in rsa.returns())
     okb = okb and len(scans) == 1 and rsa.xnorm(scans[0][0], scans[0][1]) == "HashRule.all_rules" and not others and not rsa.stmts(ast.While) and from_strategy
     ck.ob(R, rsa.key(None, "blacklist-by-identity"), okb, "symbols are excluded only by blacklist identity; all rule strategies are tried" if okb else
@@ -1847,6 +2367,68 @@ def check_enforcement(ck, R):
 
 
 # --------------------------------------------------------------------------------- C14.R3 (K1)
+def _value_text(fa, v, at_ast):
+    """Text of a value for an obligation key, independent of how it is spelt: locals replaced by what they were assigned
+    (a temporary hoisted in front of the call reads like the expression in place; one assigned in both arms of an `if`, or
+    re-assigned under `if not <itself>`, reads like the conditional expression it spells out), `x if x else y` read as `x or y`."""
+    import copy
+    ns = fa.nodes(at_ast)
+
+    def value_of(name, at, depth):
+        ds = [d for d in fa.df.reaching(at, name)]
+        if depth <= 0 or not ds:
+            return None
+        if len(ds) == 1:
+            d = ds[0]
+            return subst(d.value, d.node, depth - 1) if d.kind == "assign" and d.value is not None else None
+        if len(ds) == 2:
+            for (a, b) in (ds, ds[::-1]):
+                if a.kind != "assign" or a.value is None or a.stmt is None:
+                    continue
+                par = fa.pm.get(a.stmt)
+                if not isinstance(par, ast.If) or not fa.nodes(par.test):
+                    continue
+                tn = fa.nodes(par.test)[0]
+                if b.kind == "assign" and b.value is not None and b.stmt is not None and fa.pm.get(b.stmt) is par and a.stmt in par.body and b.stmt in par.orelse:
+                    return ast.IfExp(test=subst(par.test, tn, depth - 1), body=subst(a.value, a.node, depth - 1), orelse=subst(b.value, b.node, depth - 1))
+                if a.stmt in par.body and not par.orelse and {(x.node, x.name) for x in fa.df.reaching(tn, name)} == {(b.node, b.name)}:
+                    old = ast.Name(id=name, ctx=ast.Load()) if b.kind == "param" else (subst(b.value, b.node, depth - 1) if b.kind == "assign" and b.value is not None else None)
+                    if old is None:
+                        continue
+                    # `if T: name = new` after `name = old`  ==  new if T else old
+                    return ast.IfExp(test=subst(par.test, tn, depth - 1), body=subst(a.value, a.node, depth - 1), orelse=old)
+        return None
+
+    def subst(e, at, depth):
+        class S(ast.NodeTransformer):
+            def visit_Name(self, n):
+                if isinstance(n.ctx, ast.Load) and fa.df.is_local(n.id):
+                    got = value_of(n.id, at, depth)
+                    if got is not None:
+                        return got
+                return n
+
+            def visit_Lambda(self, n):
+                return n
+        return S().visit(copy.deepcopy(e))
+
+    class T(ast.NodeTransformer):
+        def visit_IfExp(self, n):
+            self.generic_visit(n)
+            t_, b_, o_ = n.test, n.body, n.orelse
+            if isinstance(t_, ast.UnaryOp) and isinstance(t_.op, ast.Not):
+                t_, b_, o_ = t_.operand, o_, b_
+            if A.norm(t_) == A.norm(b_):
+                vals = [b_] + (list(o_.values) if isinstance(o_, ast.BoolOp) and isinstance(o_.op, ast.Or) else [o_])
+                return ast.copy_location(ast.BoolOp(op=ast.Or(), values=vals), n)
+            return n
+    try:
+        ex = subst(v, ns[0], 6) if ns else copy.deepcopy(v)
+        return A.norm(ast.fix_missing_locations(T().visit(ex)))
+    except RecursionError:
+        return A.norm(v)
+
+
 def check_version_taint(ck, R):
     ck.rule(R, "a computed version never becomes a declared version: no value derived from version() / "
                "_calculated_version / _recompute_version() flows into the `version=` parameter of the MementoFunction "
@@ -1866,7 +2448,7 @@ def check_version_taint(ck, R):
             ck.ob(R, fa.qual + "::MementoFunction(version=)::unrefreshed", False,
                   "the clone's version is taken from self._calculated_version without going through version(): after a tracked variable changed, "
                   "a modifier clone created before the next query keeps the old version and serves old results", fa.where(call))
-        ck.ob(R, fa.qual + "::MementoFunction(version=%s)" % A.norm(v), not tainted,
+        ck.ob(R, fa.qual + "::MementoFunction(version=%s)" % _value_text(fa, v, call), not tainted,
               "the declared-version slot receives only a declared version" if not tainted else
               "the clone is constructed with version=<computed version> (%s): it counts as explicitly versioned, so dependency "
               "enforcement is skipped for calls it makes and its version is pinned when dependencies are redefined" % A.short(v, 50), fa.where(call))
@@ -2404,8 +2986,16 @@ def check_update_protocol(ck, R):
     # flags normalised away), and the protocol events (recompute, bump, store) it passes, in order.
     GEN = "MementoFunction._global_fn_generation"
     CACHE = "MementoFunction._global_fn_version_cache"
+
+    def cls_text(t):
+        """the class-level generation counter and version cache under one designator, however the class is reached from a method
+        (type(self).X, self.__class__.X, a read through the instance): reading them, and storing INTO the table, reaches the one
+        object the class holds"""
+        return re.sub(r"(?:\btype\(self\)|\bself\.__class__|\bself)\.(_global_fn_generation|_global_fn_version_cache)\b", r"MementoFunction.\1", t)
+
     paths = _exit_paths(fa)
     ck.need(paths is not None, "_update_dependencies: too many paths")
+    paths = [(p_, {cls_text(t_): pol_ for t_, pol_ in lits_.items()}) for (p_, lits_) in paths]
 
     def changed_coll(e):
         """'exact' for `[r for r in self._hash_rules if r.did_change()]` (any comprehension kind / variable name),
@@ -2597,9 +3187,9 @@ def check_update_protocol(ck, R):
         at_ = fa.nodes(s_)[0]
         if isinstance(s_, ast.Assign):
             for t in s_.targets:
-                if isinstance(t, ast.Subscript) and fa.xnorm(t.value, at_) == CACHE:
+                if isinstance(t, ast.Subscript) and cls_text(fa.xnorm(t.value, at_)) == CACHE:
                     puts.append((s_, t.slice if len(s_.targets) == 1 else None, s_.value))
-        elif isinstance(s_.value, ast.Call) and A.call_recv(s_.value) is not None and fa.xnorm(A.call_recv(s_.value), at_) == CACHE:
+        elif isinstance(s_.value, ast.Call) and A.call_recv(s_.value) is not None and cls_text(fa.xnorm(A.call_recv(s_.value), at_)) == CACHE:
             c_ = s_.value
             if A.call_attr(c_) == "__setitem__" and len(c_.args) == 2:
                 puts.append((s_, c_.args[0], c_.args[1]))
@@ -2623,7 +3213,7 @@ def check_update_protocol(ck, R):
         if okv:
             bound = dict(zip(flds, v.args))
             bound.update({k.arg: k.value for k in v.keywords})
-            okv = gen_field in bound and fa.xnorm(bound[gen_field], at_) == GEN \
+            okv = gen_field in bound and cls_text(fa.xnorm(bound[gen_field], at_)) == GEN \
                 and any(f_ != gen_field and fa.xnorm(e_, at_) == "self._recompute_version()" for f_, e_ in bound.items()) \
                 and fa.xnorm(key_, at_) == "self.qualified_name_without_version"
         ok_c = ok_c and okv
@@ -3565,7 +4155,7 @@ def _chain_through_unwrap(fa, e, at):
 def check_dotted_names(ck, R):
     ck.rule(R, "name extraction: the source visitor records bare names and attribute chains, and removes exactly the "
                "function's locals and cell variables (and chains rooted at them)", 4)
-    fa = FA(ck, CH + ".list_dotted_names")
+    fa = _fa_live(ck, CH + ".list_dotted_names")
     # the nested visitor class
     cls = None
     for n in A.walk_body(fa.node):
@@ -3931,6 +4521,253 @@ def check_graph_derivation(ck, R):
     ck.ob(R, hr.key(None), okh, "hash_rules() refreshes before answering" if okh else "hash_rules() does not refresh dependencies first", hr.where())
 
 
+class _ValueOrigins:
+    """Where the ELEMENTS / the value of an expression come from, followed by copying only (assignments, loop variables, what is
+    appended to / stored in a local in place, comprehensions, conditional expressions, the returned values of methods of the same
+    class and of nested functions with their parameters bound to the call's arguments) - never through the tests of branches.
+    Collected origins:
+      ("call", <method name>, <receiver, in the terms of the function the walk started in>)   a method call with no argument
+                                                                                               on something that is not a local copy
+      ("param", <function>, <name>)    a parameter of the function the walk started in
+      ("other", <text>, <where>)       a field, a global, a parameter nobody binds"""
+
+    _BUILDERS = {"list", "set", "tuple", "sorted", "frozenset", "reversed", "iter", "filter", "chain", "deque", "dict", "enumerate", "zip", "copy", "deepcopy"}
+
+    def __init__(self, ck, cls):
+        self.ck, self.cls = ck, cls
+        self.out = set()
+        self.seen = set()
+        self._mut = {}
+        self._fas = {}
+
+    def fa_of(self, fi):
+        if fi.qual not in self._fas:
+            self._fas[fi.qual] = FA(self.ck, fi)
+        return self._fas[fi.qual]
+
+    def mutations(self, fa):
+        if fa.qual in self._mut:
+            return self._mut[fa.qual]
+        m = {}
+        for st in fa.stmts():
+            if isinstance(st, (ast.If, ast.While, ast.For, ast.AsyncFor, ast.Try, ast.With, ast.AsyncWith)) or not fa.nodes(st):
+                continue
+            for x in A.walk_local(st):
+                if isinstance(x, ast.Call) and isinstance(x.func, ast.Attribute) and isinstance(x.func.value, ast.Name) and (x.args or x.keywords):
+                    m.setdefault(x.func.value.id, []).append((fa.nodes(st)[0], list(x.args) + [k.value for k in x.keywords]))
+                if isinstance(x, ast.Subscript) and isinstance(x.ctx, ast.Store) and isinstance(x.value, ast.Name) and getattr(st, "value", None) is not None:
+                    m.setdefault(x.value.id, []).append((fa.nodes(st)[0], [st.value]))
+        self._mut[fa.qual] = m
+        return m
+
+    def callee(self, fa, call):
+        """the method of the same class / the nested function a call runs, else None"""
+        f = call.func
+        if isinstance(f, ast.Name):
+            cur = fa.fi
+            while cur is not None:
+                if f.id in cur.nested:
+                    return cur.nested[f.id]
+                cur = cur.parent
+            return None
+        if isinstance(f, ast.Attribute) and isinstance(f.value, ast.Name) and self.cls is not None and f.attr in self.cls.methods \
+                and f.value.id in ("self", "cls", self.cls.name):
+            return self.cls.methods[f.attr]
+        return None
+
+    def subject(self, fa, e, at, bind):
+        """`e` in the terms of the function the walk started in: a parameter is replaced by what the call bound to it"""
+        ex = fa.expand(e, at)
+        if isinstance(ex, ast.Name) and bind is not None and ex.id in bind:
+            b = bind[ex.id]
+            if b is None:
+                return "<default>"
+            return self.subject(b[0], b[1], b[2], b[3])
+        return A.norm(ex)
+
+    def walk(self, fa, e, at, bind=None, bound=frozenset()):
+        if e is None or at is None:
+            return
+        k = (fa.qual, id(e), at, id(bind))
+        if k in self.seen:
+            return
+        self.seen.add(k)
+        if isinstance(e, ast.Constant) or isinstance(e, (ast.Compare, ast.Lambda, ast.JoinedStr)):
+            return
+        if isinstance(e, ast.IfExp):
+            self.walk(fa, e.body, at, bind, bound)
+            self.walk(fa, e.orelse, at, bind, bound)
+            return
+        if isinstance(e, (ast.ListComp, ast.SetComp, ast.GeneratorExp, ast.DictComp)):
+            b2 = set(bound)
+            for g in e.generators:
+                self.walk(fa, g.iter, at, bind, frozenset(b2))
+                b2 |= {x.id for x in ast.walk(g.target) if isinstance(x, ast.Name)}
+            for part in ([e.key, e.value] if isinstance(e, ast.DictComp) else [e.elt]):
+                self.walk(fa, part, at, bind, frozenset(b2))
+            return
+        if isinstance(e, ast.Call) and isinstance(e.func, ast.Name) and e.func.id == "getattr" and len(e.args) >= 2 and A.const_str(e.args[1]):
+            self.walk(fa, ast.copy_location(ast.Attribute(value=e.args[0], attr=A.const_str(e.args[1]), ctx=ast.Load()), e), at, bind, bound)
+            for x in e.args[2:]:
+                self.walk(fa, x, at, bind, bound)
+            return
+        if isinstance(e, ast.Call):
+            sub = self.callee(fa, e)
+            if sub is not None:
+                ps = [p_ for p_ in sub.params if not (p_ in ("self", "cls") and not sub.is_static and sub.cls is not None and sub.parent is None)]
+                nb = {}
+                a_ = sub.node.args
+                for i, p_ in enumerate(ps):
+                    v = A.arg_or_kw(e, i, p_)
+                    nb[p_] = (fa, v, at, bind) if v is not None else None
+                sfa = self.fa_of(sub)
+                for r in sfa.returns():
+                    if r.value is not None and sfa.nodes(r):
+                        self.walk(sfa, r.value, sfa.nodes(r)[0], nb, frozenset())
+                return
+            rcv = A.call_recv(e)
+            if rcv is not None and not e.args and not e.keywords and A.call_attr(e) not in ("copy", "keys", "values", "items"):
+                root = rcv
+                while isinstance(root, (ast.Attribute, ast.Subscript)):
+                    root = root.value
+                local_copy = isinstance(root, ast.Name) and fa.df.is_local(root.id) and root.id not in fa.fi.params and root.id not in bound
+                if not local_copy:
+                    self.out.add(("call", A.call_attr(e), self.subject(fa, rcv, at, bind)))
+                    return
+            inputs = ([rcv] if rcv is not None else []) + list(e.args) + [k_.value for k_ in e.keywords]
+            if not inputs and not (isinstance(e.func, ast.Name) and e.func.id in self._BUILDERS):
+                self.out.add(("other", A.short(e, 60), fa.where(e)))
+            for x in inputs:
+                self.walk(fa, x, at, bind, bound)
+            return
+        if isinstance(e, ast.Name):
+            if e.id in bound or not isinstance(e.ctx, ast.Load):
+                return
+            if not fa.df.is_local(e.id):
+                if fa.fi.parent is not None and e.id not in dir(__builtins__):
+                    # a variable of the enclosing function, read by a nested one: followed from where the nested function is defined
+                    host = self.fa_of(fa.fi.parent)
+                    if host.df.is_local(e.id) and host.nodes(fa.fi.node):
+                        self.walk(host, ast.copy_location(ast.Name(id=e.id, ctx=ast.Load()), fa.fi.node), host.nodes(fa.fi.node)[0], None, frozenset())
+                        return
+                if e.id not in self._BUILDERS and e.id not in ("None", "True", "False"):
+                    self.out.add(("other", e.id, fa.where(e)))
+                return
+            for d in fa.df.reaching(at, e.id):
+                if d.kind == "param":
+                    if e.id in ("self", "cls"):
+                        continue
+                    if bind is not None and e.id in bind:
+                        b = bind[e.id]
+                        if b is None:
+                            dv = self._default(fa, e.id)
+                            if dv is not None and not isinstance(dv, ast.Constant):
+                                self.out.add(("other", "default of `%s`" % e.id, fa.where()))
+                        else:
+                            self.walk(b[0], b[1], b[2], b[3], frozenset())
+                    else:
+                        self.out.add(("param", fa.fi.name, e.id))
+                elif d.value is not None:
+                    if d.kind in ("for", "unpack") or isinstance(d.value, (ast.expr,)):
+                        self.walk(fa, d.value, d.node, bind, frozenset())
+            for (mn, exprs) in self.mutations(fa).get(e.id, []) if e.id not in fa.fi.params else []:
+                for x in exprs:
+                    self.walk(fa, x, mn, bind, frozenset())
+            return
+        if isinstance(e, ast.Attribute):
+            root = e
+            while isinstance(root, (ast.Attribute, ast.Subscript)):
+                root = root.value
+            if isinstance(root, ast.Name) and (root.id in bound or (fa.df.is_local(root.id) and root.id not in fa.fi.params)):
+                self.walk(fa, e.value, at, bind, bound)
+            elif isinstance(root, ast.Name) and bind is not None and root.id in bind and bind[root.id] is not None:
+                self.out.add(("other", "%s of %s" % (e.attr, self.subject(fa, e.value, at, bind)), fa.where(e)))
+            elif isinstance(root, ast.Name):
+                self.out.add(("other", A.norm(e), fa.where(e)))
+            else:
+                self.walk(fa, e.value, at, bind, bound)
+            return
+        if isinstance(e, ast.Subscript):
+            self.walk(fa, e.value, at, bind, bound)
+            return
+        if isinstance(e, ast.BoolOp):
+            for v in e.values:
+                self.walk(fa, v, at, bind, bound)
+            return
+        if isinstance(e, ast.BinOp):
+            self.walk(fa, e.left, at, bind, bound)
+            self.walk(fa, e.right, at, bind, bound)
+            return
+        if isinstance(e, (ast.Tuple, ast.List, ast.Set)):
+            for x in e.elts:
+                self.walk(fa, x, at, bind, bound)
+            return
+        if isinstance(e, (ast.Starred, ast.Await, ast.NamedExpr)):
+            self.walk(fa, e.value, at, bind, bound)
+            return
+        if isinstance(e, ast.Dict):
+            for x in e.values:
+                self.walk(fa, x, at, bind, bound)
+            return
+
+    @staticmethod
+    def _default(fa, name):
+        a_ = fa.node.args
+        pos = a_.posonlyargs + a_.args
+        for i, x in enumerate(pos):
+            if x.arg == name:
+                j = i - (len(pos) - len(a_.defaults))
+                return a_.defaults[j] if j >= 0 else None
+        for x, dv in zip(a_.kwonlyargs, a_.kw_defaults):
+            if x.arg == name:
+                return dv
+        return None
+
+
+def check_graph_nodes_from_own_rules(ck, R):
+    """The dependency graph links every memento function to what IT reaches: the node of a function is built from the hash rules of
+    that very function (`<the function>.hash_rules()`, collected with its own package scope, its own first-level marks and its own
+    parent symbols).  Rules collected for another function - the root of the whole graph, the caller's - are a different set: what
+    a dependency reaches through plain helpers of its own package is outside the root's package scope and only watched there."""
+    ck.rule(R, "every node of the dependency graph is built from the hash rules of the node's own function", 1)
+    g = FA(ck, "dependency_graph.DependencyGraph.generate_graph")
+    cls = ck.repo.cls("dependency_graph.DependencyGraph")
+    rec = [c for c in g.calls("generate_graph") if g.nodes(c)]
+    ck.need(bool(rec), "generate_graph: no recursive call found (the graph is expected to be built by descending into each dependency)")
+    params = [p_ for p_ in g.fi.params if p_ not in ("self", "cls")]
+    GQ = "dependency_graph.DependencyGraph.generate_graph"
+    def fn_of_a_rule(e, at):
+        """`<rule>.memento_fn` / getattr(<rule>, 'memento_fn'[, default]), through temporaries"""
+        ex = g.expand(e, at)
+        return (isinstance(ex, ast.Attribute) and ex.attr == "memento_fn") or \
+            (isinstance(ex, ast.Call) and isinstance(ex.func, ast.Name) and ex.func.id == "getattr" and len(ex.args) >= 2 and A.const_str(ex.args[1]) == "memento_fn")
+
+    fn_params = [p_ for p_ in params if all(_call_arg(ck, c, GQ, p_) is not None and fn_of_a_rule(_call_arg(ck, c, GQ, p_), g.nodes(c)[0]) for c in rec)]
+    ck.need(len(fn_params) == 1, "generate_graph: expected one parameter that the recursive calls bind to `<rule>.memento_fn` (the function of the sub-graph), found %d" % len(fn_params))
+    P = fn_params[0]
+    vo = _ValueOrigins(ck, cls)
+    for c in rec:
+        vo.walk(g, _call_arg(ck, c, GQ, P), g.nodes(c)[0])
+    origins = vo.out
+    ck.need(bool(origins), "generate_graph: could not follow where the rules of a node come from")
+    good = {o for o in origins if o[0] == "call" and o[1] == "hash_rules" and o[2] == P}
+    bad = sorted(origins - good, key=str)
+    ok = bool(good) and not bad
+
+    def say(o):
+        if o[0] == "call":
+            return "`%s.%s()`" % (o[2], o[1])
+        if o[0] == "param":
+            return "parameter `%s` of %s (handed in by the caller, collected for whatever function the caller had)" % (o[2], o[1])
+        return "`%s`" % o[1]
+    ck.ob(R, g.key(None, "node-from-own-rules"), ok, "the rules a node's edges are made from are `%s.hash_rules()`" % P if ok else
+          "the rules from which generate_graph makes the edges of the node of `%s` can come from %s, not (only) from `%s.hash_rules()`: rules collected "
+          "for another function carry that function's package scope and first-level marks, so what a dependency of another package reaches through "
+          "its own plain helpers is missing (those helpers are only watched from the root's scope) - its edges and the functions behind them "
+          "vanish from graph()/df() while its own dependencies() still lists them" % (P, "; ".join(say(o) for o in bad[:3]) or "nowhere visible", P),
+          bad[0][2] if bad and bad[0][0] == "other" else g.where(rec[0]))
+
+
 def check_names_resolved_where_defined(ck, R):
     """The names found in a function's source are looked up in the globals of the function that source belongs to.
     inspect.getsource (list_dotted_names) and fn_code_hash look through functools.wraps wrappers, so every `__globals__`
@@ -3979,6 +4816,7 @@ def check_variable_kinds_described(ck, R):
     tuple - and dictionary keys, which JSON writes as strings): the serialisation has to describe those kinds itself (D41)."""
     ck.rule(R, "kinds of value the argument codec conflates (tuple / list, non-string dictionary keys) are described in a tracked variable's hash", 2)
     enc = FA(ck, "serialization.MementoCodec.encode_arg")
+    KINDS = ("list", "tuple", "set", "frozenset", "dict")
     groups = []
     for nd in enc.cfg.nodes:
         if nd.kind != "test":
@@ -3988,9 +4826,59 @@ def check_variable_kinds_described(ck, R):
             it = A.isinstance_types(atom)
             if it and it[0] == (enc.fi.params[1] if len(enc.fi.params) > 1 else "obj"):
                 tys |= set(it[1])
-        builtin = {t for t in tys if t in ("list", "tuple", "set", "frozenset", "dict")}
+        builtin = {t for t in tys if t in KINDS}
         if len(builtin) >= 2:
             groups.append(builtin)
+    if not groups:
+        # the ladder may have been split over methods of the codec / functions of the module, or turned into a dispatch table
+        # scanned with isinstance: the kinds one branch takes together are then one test of a helper on its parameter, or one
+        # entry of a table the unit reads
+        emod = enc.fi.module
+        ecls = enc.fi.cls
+        unit_fis, seen_f, work = [enc.fi], {enc.fi.qual}, [enc.fi]
+        while work:
+            cur = work.pop()
+            for c in ast.walk(cur.node):
+                if not isinstance(c, ast.Call):
+                    continue
+                f_ = None
+                if isinstance(c.func, ast.Name):
+                    f_ = cur.nested.get(c.func.id) or emod.functions.get(c.func.id)
+                elif isinstance(c.func, ast.Attribute) and isinstance(c.func.value, ast.Name) and ecls is not None \
+                        and c.func.value.id in ("cls", "self", ecls.name) and c.func.attr in ecls.methods:
+                    f_ = ecls.methods[c.func.attr]
+                if f_ is not None and f_.qual not in seen_f:
+                    seen_f.add(f_.qual)
+                    unit_fis.append(f_)
+                    work.append(f_)
+        for f_ in unit_fis:
+            for x in ast.walk(f_.node):
+                if isinstance(x, (ast.If, ast.While, ast.IfExp)):
+                    tys = set()
+                    for atom in A.test_atoms(x.test):
+                        it = A.isinstance_types(atom)
+                        if it and it[0] in f_.params:
+                            tys |= set(it[1])
+                    builtin = {t for t in tys if t in KINDS}
+                    if len(builtin) >= 2 and builtin not in groups:
+                        groups.append(builtin)
+        tables = {}
+        for st in emod.tree.body + (list(ecls.node.body) if ecls is not None else []):
+            if isinstance(st, (ast.Assign, ast.AnnAssign)) and st.value is not None:
+                for t_ in (st.targets if isinstance(st, ast.Assign) else [st.target]):
+                    if isinstance(t_, ast.Name):
+                        tables[t_.id] = st.value
+        read = {x.id for f_ in unit_fis for x in ast.walk(f_.node) if isinstance(x, ast.Name) and x.id in tables} | \
+               {x.attr for f_ in unit_fis for x in ast.walk(f_.node) if isinstance(x, ast.Attribute) and x.attr in tables and isinstance(x.value, ast.Name)
+                and x.value.id in ("cls", "self", ecls.name if ecls is not None else "")}
+        scanned = any(isinstance(x, ast.Call) and isinstance(x.func, ast.Name) and x.func.id == "isinstance" and len(x.args) == 2 and isinstance(x.args[1], ast.Name)
+                      for f_ in unit_fis for x in ast.walk(f_.node))
+        for nm_ in sorted(read) if scanned else []:
+            for x in ast.walk(tables[nm_]):
+                if isinstance(x, ast.Tuple) and x.elts and all(isinstance(e_, ast.Name) for e_ in x.elts):
+                    builtin = {e_.id for e_ in x.elts if e_.id in KINDS}
+                    if len(builtin) >= 2 and builtin not in groups:
+                        groups.append(builtin)
     ck.need(bool(groups), "encode_arg: no isinstance group of container kinds found (list / tuple)")
     sv = FA(ck, CH + ".GlobalVariableHashRule._serialize_value")
     unit = _class_unit(ck, sv)
